@@ -167,6 +167,28 @@ Theorem C04_metric_partial :
             dims true h r).
 Proof. exact c_metric. Qed.
 
+(* No call-history dependence: on ONE specialised energy, the answer (value, Jacobian, metric) to the k-th
+   linearized call of any sequence of (want_metric, point) calls is the answer to that call alone.  The check
+   observes the implementation's specialised operator after earlier want_metric=False/True calls on the same
+   object and compares with this model, so a history-dependent implementation is a correspondence disagreement. *)
+Theorem C04_history_independent :
+  forall (A : Type) (a0 a1 ahalf : A) (aadd amul asub : A -> A -> A)
+           (anonneg : A -> bool) (apowm2 : A -> A) (P : Type)
+           (ptab : P -> ptw_entry A) (plog psqrt : P) 
+           (dims : nat -> nat) (cs : nat -> bool) (rc : env A) 
+           (h : cen A P) (pre post : list (bool * env A)) 
+           (c : bool * env A) (dflt : A * jop A * option (mop A)),
+         List.nth (length pre)
+           (call_seq A a0 a1 ahalf aadd amul asub anonneg apowm2 P ptab plog
+              psqrt dims
+              (simplifyC A a0 a1 ahalf aadd amul asub P ptab plog dims cs rc h)
+              (pre ++ c :: post)) dflt =
+         linC A a0 a1 ahalf aadd amul asub anonneg apowm2 P ptab plog psqrt
+           dims (fst c)
+           (simplifyC A a0 a1 ahalf aadd amul asub P ptab plog dims cs rc h)
+           (snd c).
+Proof. exact c_history. Qed.
+
 (* The faithful model REFUTES the property in two places (witnesses computed in Qc; both are replayed on the
    implementation by the direct oracle and recorded as open findings):
    1. VariableCovarianceGaussianEnergy(use_full_fisher=False) with the residual key constant: the specialised
